@@ -303,6 +303,20 @@ Theorem C15_overlap_checker_accepts_model_partial : forall k, (1 <= k <= 3)%nat 
 Proof. exact overlap_checker_accepts_directed. Qed.
 Print Assumptions C15_overlap_checker_accepts_model_partial.
 
+(* Clause announce:self of the overlap checker, for ARBITRARY schedules with pairwise distinct call
+   ids: on the step model's observation (the effects of every call of the compiled schedule) the
+   flag condition is false -- no call ever sends the newcomer of its window a record with the
+   newcomer's own address.  (From C15_step_sound, the link between a window and the SAdd step of its
+   call, and the role invariant: a fan-out message never goes to the connecting provider itself.)
+   The clauses bidder, extra and missing are still proved only for the directed family above. *)
+Theorem C15_overlap_self_accepts_model : forall acts w,
+  NoDup (started_calls acts) -> In w (fst (windows abs_init [] acts)) ->
+  let eff := call_effects (w_id w) (compile sinit acts) in
+  existsb (fun r => fst r =? p_addr (w_peer w))
+          (flat_map snd (filter (fun m => peer_eqb (fst m) (w_peer w)) (announces eff))) = false.
+Proof. exact overlap_self_accepts_model. Qed.
+Print Assumptions C15_overlap_self_accepts_model.
+
 (* ---- event level versus system level: the late add ----------------------------------------------
    C15_view is a statement about the events the Topology receives.  It is NOT the system-level claim
    "the reported view holds only peers the p2p layer still has": for a peer learned through gossip
